@@ -348,4 +348,11 @@ theorem c14_property_header_parser_follows_source (bs : Bytes) :
 example : Generated.rawPropertyParse [0b0011_1010, 0x03, 0x02, 0xF1, 1, 97, 9] =
     .ok ((0, .signedInt 3 (some (-982525)), [97]), [9]) := by rfl
 
+/-- **The reader's decoding of the property list of a layout follows the source**: `RawLayout::parse` (a count
+    byte, then that many `RawProperty::parse`), translated on every run, is `rawLayoutDecode` of the reader
+    model on every byte string; the translated loop recurses on the count, so it terminates. -/
+theorem c14_raw_layout_parser_follows_source (bs : Bytes) :
+    ((Generated.rawLayoutParse bs).map' (·.1)).Same ((rawLayoutDecode bs).map' (List.map RawProp.toSrcRaw)) :=
+  gen_rawLayoutParse bs
+
 end Jubako
